@@ -8,13 +8,34 @@ import (
 	"sort"
 	"strings"
 
+	"golang.org/x/tools/go/packages"
 	"verifharness/fw"
 )
 
-// Globals emits SemverGlobals.lean: every package-level variable of
-// util/semver and every write to one outside init (assignment, inc/dec,
-// index/field write, append target, address taken and passed). C01's "no
-// dependence on the history of calls" rests on `writes = []`.
+// Globals emits SemverGlobals.lean: every package-level variable of util/semver and
+// every write to one outside init (assignment, inc/dec, index/field write, range
+// target), and every address taken of one unless the pointer provably stays read-only.
+// C01's "no dependence on the history of calls" rests on `writes = []`.
+//
+// The analysis is on the type-checked package and knows no identifier, file or function
+// name (names appear only inside the entries, to locate a finding; the list is expected
+// to be empty). An address `&G…` is followed to what is done with the pointer:
+//
+//   - harmless: comparing it, reading through it (operands, conditions, range, len/cap),
+//     copying out a value that shares no storage (numbers, strings, bools, and
+//     structs/arrays of these), re-binding the local variable that holds it;
+//   - followed: the pointer (or a slice/map/pointer/interface read through it) assigned to
+//     a local variable, passed to a function or method of the package (the parameter /
+//     receiver is followed in the callee, all implementations for an interface method);
+//   - reported: assignment or ++/-- through it, append/copy/delete/clear onto it, and
+//     any alias that leaves what can be followed (stored in a field or a package-level
+//     variable, returned, put in a literal, passed to code outside the package or to a
+//     function value).
+//
+// The following is conservative: a followed local is examined at ALL its uses, whatever
+// it points to at the time. NOT covered, as before: aliases that do not start from an
+// address (a package-level slice, map or pointer copied or passed by value and written
+// through later); init and package-level initialisers are the initialisation phase.
 func Globals(repo string) (string, error) {
 	p, err := fw.LoadPkg(repo + "/util/semver")
 	if err != nil {
@@ -50,6 +71,7 @@ func Globals(repo string) (string, error) {
 			}
 		}
 	}
+	a := newAliasAnalysis(p)
 	for _, f := range p.Syntax {
 		if strings.HasSuffix(p.Fset.Position(f.Pos()).Filename, "_test.go") {
 			continue
@@ -77,7 +99,11 @@ func Globals(repo string) (string, error) {
 					rec("incdec", s.X)
 				case *ast.UnaryExpr:
 					if s.Op == token.AND {
-						rec("addr", s.X)
+						if o := rootObj(s.X); o != nil && globals[o] {
+							if why := a.fateOf(s, false); why != "" {
+								rec("addr:"+why, s.X)
+							}
+						}
 					}
 				case *ast.RangeStmt:
 					if s.Tok == token.ASSIGN {
@@ -103,7 +129,7 @@ func Globals(repo string) (string, error) {
 		}
 		b.WriteString(fw.LeanStr(n))
 	}
-	b.WriteString("]\n\n/-- Writes to (or addresses taken of) package-level variables outside `init`: file:func:var:kind. -/\ndef writes : List String := [")
+	b.WriteString("]\n\n/-- Writes to package-level variables outside `init`, and addresses taken of one whose pointer is not provably read-only (followed through locals, parameters and receivers of the package): file:func:var:kind. -/\ndef writes : List String := [")
 	for i, n := range writes {
 		if i > 0 {
 			b.WriteString(", ")
@@ -119,4 +145,466 @@ func shortFile(s string) string {
 		return s[i+1:]
 	}
 	return s
+}
+
+// aliasAnalysis answers: may the storage denoted by this expression be written?
+type aliasAnalysis struct {
+	p       *packages.Package
+	parent  map[ast.Node]ast.Node
+	uses    map[types.Object][]*ast.Ident
+	bodies  map[*types.Func]*ast.FuncDecl
+	memo    map[types.Object]string // followed locals / parameters / receivers
+	pending map[types.Object]bool
+}
+
+func newAliasAnalysis(p *packages.Package) *aliasAnalysis {
+	a := &aliasAnalysis{p: p, parent: map[ast.Node]ast.Node{}, uses: map[types.Object][]*ast.Ident{},
+		bodies: map[*types.Func]*ast.FuncDecl{}, memo: map[types.Object]string{}, pending: map[types.Object]bool{}}
+	for _, f := range p.Syntax {
+		var stack []ast.Node
+		ast.Inspect(f, func(n ast.Node) bool {
+			if n == nil {
+				stack = stack[:len(stack)-1]
+				return true
+			}
+			if len(stack) > 0 {
+				a.parent[n] = stack[len(stack)-1]
+			}
+			stack = append(stack, n)
+			if id, ok := n.(*ast.Ident); ok {
+				if o := p.TypesInfo.Uses[id]; o != nil {
+					a.uses[o] = append(a.uses[o], id)
+				}
+			}
+			if fd, ok := n.(*ast.FuncDecl); ok && fd.Body != nil {
+				if fn, ok := p.TypesInfo.Defs[fd.Name].(*types.Func); ok {
+					a.bodies[fn] = fd
+				}
+			}
+			return true
+		})
+	}
+	return a
+}
+
+// sharesNothing: copying a value of this type cannot alias mutable storage.
+func sharesNothing(t types.Type) bool {
+	switch u := t.Underlying().(type) {
+	case *types.Basic:
+		return u.Kind() != types.UnsafePointer
+	case *types.Signature:
+		return true
+	case *types.Struct:
+		for i := 0; i < u.NumFields(); i++ {
+			if !sharesNothing(u.Field(i).Type()) {
+				return false
+			}
+		}
+		return true
+	case *types.Array:
+		return sharesNothing(u.Elem())
+	}
+	return false
+}
+
+func (a *aliasAnalysis) typeOf(e ast.Expr) types.Type {
+	if tv, ok := a.p.TypesInfo.Types[e]; ok && tv.Type != nil {
+		return tv.Type
+	}
+	if id, ok := e.(*ast.Ident); ok {
+		if o := a.p.TypesInfo.Uses[id]; o != nil {
+			return o.Type()
+		}
+		if o := a.p.TypesInfo.Defs[id]; o != nil {
+			return o.Type()
+		}
+	}
+	return types.Typ[types.Invalid]
+}
+
+// copyIsFree: the VALUE of e can go anywhere without carrying an alias.
+func (a *aliasAnalysis) copyIsFree(e ast.Expr) bool {
+	t := a.typeOf(e)
+	return t != types.Typ[types.Invalid] && sharesNothing(t)
+}
+
+// follow examines every use of a local variable, parameter or receiver that may hold an
+// alias; "" = none of them can write the storage.
+func (a *aliasAnalysis) follow(o types.Object) string {
+	if o == nil {
+		return "escape:unknown"
+	}
+	if r, ok := a.memo[o]; ok {
+		return r
+	}
+	if a.pending[o] {
+		return "" // recursion: decided by the outer examination
+	}
+	if v, ok := o.(*types.Var); !ok || v.Parent() == a.p.Types.Scope() || v.IsField() {
+		return "escape:store"
+	}
+	a.pending[o] = true
+	res := ""
+	for _, id := range a.uses[o] {
+		if k := a.fateOf(id, true); k != "" {
+			res = k
+			break
+		}
+	}
+	delete(a.pending, o)
+	a.memo[o] = res
+	return res
+}
+
+// target: what receives the value when it is assigned/declared to lhs.
+func (a *aliasAnalysis) storeInto(lhs ast.Expr) string {
+	id, ok := ast.Unparen(lhs).(*ast.Ident)
+	if !ok {
+		return "escape:store"
+	}
+	if id.Name == "_" {
+		return ""
+	}
+	o := a.p.TypesInfo.Defs[id]
+	if o == nil {
+		o = a.p.TypesInfo.Uses[id]
+	}
+	return a.follow(o)
+}
+
+// fateOf walks up from expression e, which denotes (a path into, or an alias of) the
+// storage. local: e is the bare name of a followed local (re-binding it is harmless).
+func (a *aliasAnalysis) fateOf(e ast.Expr, local bool) string {
+	bare := local
+	for {
+		par := a.parent[e]
+		switch x := par.(type) {
+		case *ast.ParenExpr:
+			e = x
+			continue
+		case *ast.SelectorExpr:
+			if x.X != e {
+				return ""
+			}
+			if sel := a.p.TypesInfo.Selections[x]; sel != nil && sel.Kind() != types.FieldVal {
+				call, ok := a.parent[x].(*ast.CallExpr)
+				if !ok || call.Fun != ast.Expr(x) || sel.Kind() != types.MethodVal {
+					return "escape:methodvalue"
+				}
+				fn, _ := sel.Obj().(*types.Func)
+				return a.receiver(fn, e)
+			}
+			e, bare = x, false
+			continue
+		case *ast.IndexExpr:
+			if x.X != e {
+				return "" // used as an index: a read
+			}
+			e, bare = x, false
+			continue
+		case *ast.SliceExpr:
+			if x.X != e {
+				return ""
+			}
+			e, bare = x, false
+			continue
+		case *ast.StarExpr:
+			e, bare = x, false
+			continue
+		case *ast.TypeAssertExpr:
+			if x.Type == nil {
+				return "escape:typeswitch"
+			}
+			e, bare = x, false
+			continue
+		case *ast.UnaryExpr:
+			switch x.Op {
+			case token.AND:
+				e, bare = x, false // a pointer to the storage: an alias
+				continue
+			case token.ARROW:
+				return "receive"
+			}
+			return ""
+		case *ast.BinaryExpr:
+			return ""
+		case *ast.KeyValueExpr, *ast.CompositeLit:
+			if a.copyIsFree(e) {
+				return ""
+			}
+			return "escape:store"
+		case *ast.IncDecStmt:
+			return "incdec"
+		case *ast.AssignStmt:
+			for _, l := range x.Lhs {
+				if l == e {
+					if bare && x.Tok == token.ASSIGN {
+						return "" // the local itself gets another value
+					}
+					return "assign"
+				}
+			}
+			if a.copyIsFree(e) {
+				return ""
+			}
+			if len(x.Lhs) != len(x.Rhs) {
+				return "escape:store"
+			}
+			for i, r := range x.Rhs {
+				if r == e {
+					return a.storeInto(x.Lhs[i])
+				}
+			}
+			return "escape:store"
+		case *ast.ValueSpec:
+			if a.copyIsFree(e) {
+				return ""
+			}
+			if len(x.Names) != len(x.Values) {
+				return "escape:store"
+			}
+			for i, r := range x.Values {
+				if r == e {
+					return a.storeInto(x.Names[i])
+				}
+			}
+			return "escape:store"
+		case *ast.RangeStmt:
+			if x.X != e {
+				if x.Tok == token.ASSIGN && !bare {
+					return "assign"
+				}
+				return ""
+			}
+			// the value variable gets a copy of each element
+			if x.Value == nil {
+				return ""
+			}
+			var elem types.Type
+			switch u := a.typeOf(e).Underlying().(type) {
+			case *types.Slice:
+				elem = u.Elem()
+			case *types.Array:
+				elem = u.Elem()
+			case *types.Map:
+				elem = u.Elem()
+			case *types.Pointer:
+				if arr, ok := u.Elem().Underlying().(*types.Array); ok {
+					elem = arr.Elem()
+				}
+			case *types.Basic:
+				return "" // string
+			}
+			if elem != nil && sharesNothing(elem) {
+				return ""
+			}
+			return a.storeInto(x.Value)
+		case *ast.ReturnStmt:
+			if a.copyIsFree(e) {
+				return ""
+			}
+			return a.returned(x)
+		case *ast.SendStmt:
+			if x.Chan == e {
+				return "send"
+			}
+			if a.copyIsFree(e) {
+				return ""
+			}
+			return "escape:send"
+		case *ast.CallExpr:
+			return a.call(x, e)
+		case *ast.IfStmt, *ast.ForStmt, *ast.SwitchStmt, *ast.CaseClause, *ast.ExprStmt:
+			return ""
+		}
+		return fmt.Sprintf("other:%T", par)
+	}
+}
+
+func (a *aliasAnalysis) call(call *ast.CallExpr, e ast.Expr) string {
+	if call.Fun == e {
+		return "" // calling a function value read from the variable
+	}
+	idx := -1
+	for i, arg := range call.Args {
+		if arg == e {
+			idx = i
+		}
+	}
+	if idx < 0 {
+		return "other:call"
+	}
+	fun := ast.Unparen(call.Fun)
+	if tv, ok := a.p.TypesInfo.Types[fun]; ok && tv.IsType() {
+		// conversion: the result may alias e
+		if a.copyIsFree(call) {
+			return ""
+		}
+		return a.fateOf(call, false)
+	}
+	var callee types.Object
+	switch f := fun.(type) {
+	case *ast.Ident:
+		callee = a.p.TypesInfo.Uses[f]
+	case *ast.SelectorExpr:
+		callee = a.p.TypesInfo.Uses[f.Sel]
+	case *ast.IndexExpr: // explicit instantiation f[T](…)
+		if id, ok := ast.Unparen(f.X).(*ast.Ident); ok {
+			callee = a.p.TypesInfo.Uses[id]
+		}
+	}
+	if bi, ok := callee.(*types.Builtin); ok {
+		switch bi.Name() {
+		case "len", "cap", "panic", "print", "println", "min", "max", "real", "imag", "complex":
+			return ""
+		case "append":
+			if idx == 0 {
+				return "append" // may write the spare capacity, and the result aliases it
+			}
+			if call.Ellipsis.IsValid() {
+				if s, ok := a.typeOf(e).Underlying().(*types.Slice); ok && sharesNothing(s.Elem()) {
+					return ""
+				}
+				if b, ok := a.typeOf(e).Underlying().(*types.Basic); ok && b.Info()&types.IsString != 0 {
+					return ""
+				}
+			}
+			if a.copyIsFree(e) {
+				return ""
+			}
+			return "escape:append"
+		case "copy":
+			if idx == 0 {
+				return "copy"
+			}
+			if s, ok := a.typeOf(e).Underlying().(*types.Slice); ok && sharesNothing(s.Elem()) {
+				return ""
+			}
+			if a.copyIsFree(e) {
+				return ""
+			}
+			return "escape:copy"
+		case "delete", "clear":
+			if idx == 0 {
+				return bi.Name()
+			}
+			return ""
+		}
+		return "escape:builtin:" + bi.Name()
+	}
+	if a.copyIsFree(e) {
+		return ""
+	}
+	fn, ok := callee.(*types.Func)
+	if !ok {
+		return "escape:call"
+	}
+	fn = fn.Origin()
+	if _, ok := a.bodies[fn]; !ok {
+		return "escape:call"
+	}
+	sig := fn.Type().(*types.Signature)
+	n := sig.Params().Len()
+	if n == 0 {
+		return "escape:call"
+	}
+	if idx >= n || (sig.Variadic() && idx >= n-1) {
+		idx = n - 1
+	}
+	return a.follow(sig.Params().At(idx))
+}
+
+// returned: an alias is returned by the function enclosing ret. If that is a declared
+// function or method of the package with one result that is only ever called (never used
+// as a value, never called through an interface), the alias is followed at every call.
+func (a *aliasAnalysis) returned(ret *ast.ReturnStmt) string {
+	var n ast.Node = ret
+	for n != nil {
+		if _, ok := n.(*ast.FuncLit); ok {
+			return "escape:return"
+		}
+		if fd, ok := n.(*ast.FuncDecl); ok {
+			fn, _ := a.p.TypesInfo.Defs[fd.Name].(*types.Func)
+			if fn == nil || fn.Exported() || fn.Type().(*types.Signature).Results().Len() != 1 {
+				return "escape:return"
+			}
+			if fn.Type().(*types.Signature).Recv() != nil && a.ifaceMethod(fn.Name()) {
+				return "escape:return" // may be called through an interface: call sites unknown
+			}
+			if a.pending[fn] {
+				return ""
+			}
+			if r, ok := a.memo[fn]; ok {
+				return r
+			}
+			a.pending[fn] = true
+			res := ""
+			for _, id := range a.uses[fn] {
+				var callee ast.Expr = id
+				if sel, ok := a.parent[id].(*ast.SelectorExpr); ok && sel.Sel == id {
+					if s := a.p.TypesInfo.Selections[sel]; s != nil {
+						if _, isIface := s.Recv().Underlying().(*types.Interface); isIface {
+							res = "escape:return"
+							break
+						}
+					}
+					callee = sel
+				}
+				call, ok := a.parent[callee].(*ast.CallExpr)
+				if !ok || call.Fun != callee {
+					res = "escape:return"
+					break
+				}
+				if k := a.fateOf(call, false); k != "" {
+					res = k
+					break
+				}
+			}
+			delete(a.pending, fn)
+			a.memo[fn] = res
+			return res
+		}
+		n = a.parent[n]
+	}
+	return "escape:return"
+}
+
+// ifaceMethod: some interface type mentioned in the package has a method of this name.
+func (a *aliasAnalysis) ifaceMethod(name string) bool {
+	for _, tv := range a.p.TypesInfo.Types {
+		if tv.Type == nil {
+			continue
+		}
+		if it, ok := tv.Type.Underlying().(*types.Interface); ok {
+			for i := 0; i < it.NumMethods(); i++ {
+				if it.Method(i).Name() == name {
+					return true
+				}
+			}
+		}
+	}
+	return false
+}
+
+// receiver: e is the receiver expression of a call of method fn.
+func (a *aliasAnalysis) receiver(fn *types.Func, e ast.Expr) string {
+	if fn == nil {
+		return "escape:call"
+	}
+	fn = fn.Origin()
+	sig := fn.Type().(*types.Signature)
+	if sig.Recv() == nil {
+		return "escape:call"
+	}
+	if _, isPtr := sig.Recv().Type().Underlying().(*types.Pointer); !isPtr && sharesNothing(sig.Recv().Type()) {
+		return "" // the method works on a copy that shares nothing
+	}
+	fd, ok := a.bodies[fn]
+	if !ok {
+		return "escape:call" // interface method or a method of another package
+	}
+	if fd.Recv == nil || len(fd.Recv.List) != 1 || len(fd.Recv.List[0].Names) != 1 {
+		return "" // receiver not named: not used in the body
+	}
+	return a.follow(a.p.TypesInfo.Defs[fd.Recv.List[0].Names[0]])
 }
